@@ -5,10 +5,11 @@ from __future__ import annotations
 import ast
 
 from ..astutil import (
-    call_name, calls_in, dotted, guard_atoms, name_stores, own_exprs, raised_name, unparse, walk_local,
+    call_name, calls_in, dotted, guard_atoms, lexical_guards, name_stores, own_exprs, raised_name, test_atoms,
+    unparse, walk_local,
 )
 from ..oracles import load as load_oracle
-from ..report import Registry, sub
+from ..report import Registry, chain, sub
 
 R = Registry(
     "C10",
@@ -319,6 +320,365 @@ def r3(ctx):
                           " / ".join(how), f.loc)
 
 
+# ---------------------------------------------------------------------------------------- R4
+# The row getters are memoized closures: whatever they read from the result when first used is frozen
+# until the memoizations are dropped.  `@_generative` on an InPlaceGenerative drops them
+# (InPlaceGenerative._generate pops every memoized key), `_reset_memoizations()` does too.
+MEMO_MARKERS = ("memoized_attribute", "memoized_property", "memoized_instancemethod")
+RESETTERS = ("self._reset_memoizations", "self._generate")
+BASE_INTERNAL = f"{CY}::BaseResultInternal"
+
+
+def _is_memoized(f) -> bool:
+    """Memoized through HasMemoized, i.e. registered in _memoized_keys and dropped by _reset_memoizations() /
+    InPlaceGenerative._generate() (a plain util.memoized_property is compute-once by design)."""
+    return any("HasMemoized" in d and any(d.endswith(m) for m in MEMO_MARKERS) for d in f.decorators)
+
+
+def _result_family(ctx):
+    base = ctx.index.cls(BASE_INTERNAL)
+    return [base] + sorted(ctx.index.subclasses(base), key=lambda c: c.key)
+
+
+def _captured_state(ctx, family):
+    """(attributes read from `self`, attributes read from the real result) while a memoized getter is built,
+    i.e. in the getter's own body, not in the closures it returns (those run at call time)."""
+    getters = []
+    for c in family:
+        for f in c.methods.values():
+            if _is_memoized(f) and not f.type_only:
+                getters.append(f)
+    ctx.require(len(getters) >= 4, f"memoized row getters not found ({[g.qualname for g in getters]})")
+    getter_names = {g.name for g in getters}
+    cap_self, cap_real = {}, {}
+    for gt in getters:
+        ctx.functions_analysed.add(gt.key)
+        real_locals = {n for n, v, st in name_stores(gt.node) if v is not None
+                       and any(dotted(x) == "self._real_result" for x in ast.walk(v))}
+        for n in walk_local(gt.node):
+            if isinstance(n, ast.Attribute) and isinstance(n.ctx, ast.Load) and isinstance(n.value, ast.Name):
+                if n.value.id == "self":
+                    cap_self.setdefault(n.attr, gt.qualname)
+                elif n.value.id in real_locals:
+                    cap_real.setdefault(n.attr, gt.qualname)
+    def is_method(name):
+        return any(name in c.all_defs for c in family)
+    for d in (cap_self, cap_real):
+        for k in list(d):
+            if k in getter_names or is_method(k) or (k.startswith("__") and k.endswith("__")):
+                del d[k]
+    return getters, cap_self, cap_real
+
+
+def _constructor_only(family, modules):
+    """Names of methods that are only ever called (as self.m()/x.m()) from __init__ or from such methods."""
+    callers = {}
+    for c in family:
+        for f in c.methods.values():
+            for call in calls_in(f.node):
+                if isinstance(call.func, ast.Attribute):
+                    callers.setdefault(call.func.attr, set()).add(f.name)
+    only = {"__init__"}
+    changed = True
+    while changed:
+        changed = False
+        for name, who in callers.items():
+            if name not in only and who and who <= only:
+                only.add(name)
+                changed = True
+    return only
+
+
+@R.rule("C10-R4", floor=13, template="T-FRESH",
+        desc="every method of the Result family that re-assigns state captured by the memoized row getters "
+             "(_unique_filter_state, _yield_per, _metadata, _post_creational_filter, _real_result, ... -- the set is "
+             "derived from the getters' bodies), directly or by delegating to such a method of its real result, "
+             "drops the memoizations (@_generative / _reset_memoizations()) or leaves the result closed")
+def r4(ctx):
+    ix = ctx.index
+    family = _result_family(ctx)
+    getters, cap_self, cap_real = _captured_state(ctx, family)
+    ctx.require({"_unique_filter_state", "_post_creational_filter"} <= set(cap_self) and "_yield_per" in cap_real,
+                f"captured state not understood: self {sorted(cap_self)}, real result {sorted(cap_real)}")
+    captured = dict(cap_real)
+    captured.update(cap_self)
+    ctor_only = _constructor_only(family, None)
+    filt = ix.cls(f"{RES}::FilterResult")
+
+    def resets(f):
+        if any(d.rsplit(".", 1)[-1] == "_generative" for d in f.decorators):
+            return "@_generative"
+        for c in calls_in(f.node):
+            if call_name(c) in RESETTERS:
+                return f"{call_name(c)}()"
+        return None
+
+    def closes_after(f, stmts):
+        """every normal exit after one of `stmts` passes a _soft_close() or a hard-closing fetch"""
+        g = ctx.cfg(f)
+        through = set(g.find_calls("_soft_close"))
+        through |= {n.id for n in g.nodes if n.stmt is not None and n.kind in ("stmt", "test") and isinstance(n.stmt, ast.stmt)
+                    and any(_is_fetch(c, f) and any(k.arg == "hard_close" for k in c.keywords) for c in _own_calls(n))
+                    and n.stmt not in stmts}
+        starts = [i for st in stmts for i in g.nodes_for(st)]
+        if not through or not starts:
+            return False
+        return g.must_pass(starts, [g.exit], through, edge_ok=None) is None
+
+    # pass 1: direct mutators
+    direct = {}     # FuncInfo.key -> (f, cls, {attr: [stmts]})
+    for c in family:
+        for f in c.methods.values():
+            if f.type_only or f.name in ctor_only or _is_memoized(f):
+                continue
+            hit = {}
+            for n in ast.walk(f.node):
+                if isinstance(n, (ast.Assign, ast.AugAssign, ast.AnnAssign)):
+                    tg = n.targets if isinstance(n, ast.Assign) else [n.target]
+                    for t in tg:
+                        for t1 in (t.elts if isinstance(t, ast.Tuple) else [t]):
+                            if isinstance(t1, ast.Attribute) and isinstance(t1.value, ast.Name) and t1.value.id == "self" \
+                                    and t1.attr in captured:
+                                hit.setdefault(t1.attr, []).append(n)
+            if hit:
+                direct[f.key] = (f, c, hit)
+    real_mutators = {f.name for f, c, hit in direct.values() if filt not in ix.mro(c) and set(hit) & set(cap_real)}
+    # pass 2: delegating mutators (a view forwarding to its real result)
+    n_inst = 0
+    seen = set()
+    for c in family:
+        for f in c.methods.values():
+            if f.type_only or f.name in ctor_only or _is_memoized(f):
+                continue
+            attrs = dict(direct.get(f.key, (None, None, {}))[2])
+            for call in calls_in(f.node):
+                nm = call_name(call) or ""
+                if nm.startswith("self._real_result.") and nm.rsplit(".", 1)[-1] in real_mutators:
+                    via = nm.rsplit(".", 1)[-1]
+                    attrs.setdefault(f"real-result.{via}()", []).append(
+                        next(st for st in ast.walk(f.node) if isinstance(st, ast.stmt) and any(x is call for x in ast.walk(st))
+                             and not isinstance(st, (ast.FunctionDef, ast.AsyncFunctionDef))))
+            if not attrs or f.key in seen:
+                continue
+            seen.add(f.key)
+            ctx.functions_analysed.add(f.key)
+            how = resets(f)
+            n_inst += 1
+            key = f"{f.key}:captured-state-change-drops-memoized-getters"
+            names = sorted(attrs)
+            all_stmts = [st for lst in attrs.values() for st in lst]
+            if how:
+                ctx.ok(key, f"{', '.join(names)}: {how}")
+            elif closes_after(f, all_stmts):
+                ctx.ok(key, f"{', '.join(names)}: the result is closed (or exhausted by a hard-closing fetch) on every "
+                            f"normal exit after the store")
+            else:
+                parts = []
+                for attr in names:
+                    parts.append(f"re-assigns self.{attr}, which {captured[attr]} captured when it was memoized" if attr in captured
+                                 else f"changes the real result through {attr[len('real-result.'):]}, whose state "
+                                      f"({', '.join(sorted(cap_real))}) the memoized getters captured")
+                ctx.violation(key, f"{c.name}.{f.name}() {'; '.join(parts)} -- but it neither is @_generative nor calls "
+                                   f"_reset_memoizations(): once a row was fetched through this object the old getter keeps "
+                                   f"the old value and the call is ignored by next()/fetchmany()/partitions()", f.loc)
+    ctx.require(n_inst > 0, "no mutator of captured state found")
+
+
+# ---------------------------------------------------------------------------------------- R5
+# fetchmany(n) / partitions(n) deliver at most n rows.  Without uniquing the fetch primitive is asked for n.
+# With uniquing, duplicates shrink a batch, so the getter tops up in a loop; nothing trims the collected list,
+# hence every top-up may only ask for the rows still missing (n - len(collected)).
+MANY = f"{CY}::BaseResultInternal._manyrow_getter"
+
+
+def _fetchmany_calls(fn):
+    """Calls of the many-row fetch primitive in `fn`: self._fetchmany_impl(..) or a local alias of it."""
+    alias = {n for n, v, st in name_stores(fn) if v is not None and (dotted(v) or "").endswith("._fetchmany_impl")}
+    return [c for c in calls_in(fn) if (call_name(c) or "").endswith("._fetchmany_impl")
+            or (isinstance(c.func, ast.Name) and c.func.id in alias)]
+
+
+@R.rule("C10-R5", floor=5, template="T-FLOW (loop bound)",
+        desc="_manyrow_getter: the plain getter asks the fetch primitive for the requested size; the uniquing getter's "
+             "top-up loop asks for exactly the shortfall it loops on, recomputes the shortfall as size - len(collected) "
+             "after every batch, stops on an empty batch, and an unknown size is defined by the first batch")
+def r5(ctx):
+    f = ctx.func(MANY)
+    pm = f.module.parents()
+    inner = [n for n in ast.walk(f.node) if isinstance(n, ast.FunctionDef) and n is not f.node and _fetchmany_calls(n)]
+    ctx.require(len(inner) == 2, f"{f.key}: expected a uniquing and a plain many-row closure, found {len(inner)}")
+    arms = {}
+    for fn in inner:
+        uniq = any("_unique_filter_state" in a and pol for a, pol in guard_atoms(lexical_guards(pm, fn, stop=f.node)))
+        arms["unique" if uniq else "plain"] = fn
+    ctx.require(set(arms) == {"unique", "plain"}, f"{f.key}: closures are not selected by self._unique_filter_state")
+
+    def size_param(fn):
+        ps = [a.arg for a in fn.args.posonlyargs + fn.args.args if a.arg != "self"]
+        ctx.require(len(ps) == 1, f"{f.key}: closure {fn.name} takes {ps}")
+        return ps[0]
+
+    # plain
+    fn = arms["plain"]
+    num = size_param(fn)
+    calls = _fetchmany_calls(fn)
+    ok = all(len(c.args) == 1 and isinstance(c.args[0], ast.Name) and c.args[0].id == num and not c.keywords for c in calls)
+    ctx.check(ok, f"{f.key}:plain:fetch-size-is-requested-size",
+              f"the plain getter calls {[unparse(c) for c in calls]}: not the requested size `{num}`",
+              f"{unparse(calls[0])}", f"{f.module.path}:{calls[0].lineno}")
+    # unique
+    fn = arms["unique"]
+    num = size_param(fn)
+    calls = _fetchmany_calls(fn)
+    loops = [n for n in ast.walk(fn) if isinstance(n, ast.While) and any(c in calls_in(n) for c in calls)]
+    ctx.require(len(loops) == 1, f"{f.key}: expected one top-up loop in the uniquing getter, found {len(loops)}")
+    loop = loops[0]
+    t = loop.test
+    if isinstance(t, ast.Compare) and len(t.ops) == 1 and isinstance(t.ops[0], (ast.Gt, ast.NotEq)) \
+            and isinstance(t.comparators[0], ast.Constant) and t.comparators[0].value == 0:
+        t = t.left
+    ctx.require(isinstance(t, ast.Name), f"{f.key}: top-up loop test `{unparse(loop.test)}` is not a shortfall variable")
+    short = t.id
+    in_loop = [c for c in calls if c in calls_in(loop)]
+    out_loop = [c for c in calls if c not in in_loop]
+
+    def bounded(a):
+        if isinstance(a, ast.Name) and a.id == short:
+            return True
+        return isinstance(a, ast.Call) and isinstance(a.func, ast.Name) and a.func.id == "min" \
+            and any(isinstance(x, ast.Name) and x.id == short for x in a.args)
+    bad = [unparse(c) for c in in_loop if not (len(c.args) == 1 and not c.keywords and bounded(c.args[0]))]
+    ctx.check(not bad, f"{f.key}:unique:top-up-fetch-bounded-by-shortfall",
+              f"inside `while {short}:` the fetch is {bad}: it can return more new unique rows than the {short} still "
+              f"missing, and nothing trims the collected list -- fetchmany(n)/partitions(n) then deliver more than n rows",
+              f"{[unparse(c) for c in in_loop]}", f"{f.module.path}:{loop.lineno}")
+    # collected list: second argument of the uniquing helper inside the loop
+    coll = {unparse(c.args[1]) for c in calls_in(loop) if (call_name(c) or "").endswith("_apply_unique_strategy") and len(c.args) >= 2}
+    ctx.require(len(coll) == 1, f"{f.key}: collected list of the top-up loop not identified ({sorted(coll)})")
+    coll = next(iter(coll))
+
+    def is_shortfall_expr(v):
+        return isinstance(v, ast.BinOp) and isinstance(v.op, ast.Sub) and isinstance(v.left, ast.Name) and v.left.id == num \
+            and unparse(v.right) == f"len({coll})"
+    body_assigns = [(i, st) for i, st in enumerate(loop.body) if isinstance(st, ast.Assign)
+                    and any(isinstance(x, ast.Name) and x.id == short for x in st.targets)]
+    collect_pos = [i for i, st in enumerate(loop.body) if any((call_name(c) or "").endswith("_apply_unique_strategy") for c in calls_in(st))]
+    good = bool(body_assigns) and bool(collect_pos) and all(is_shortfall_expr(st.value) for _, st in body_assigns) \
+        and body_assigns[-1][0] > max(collect_pos)
+    others = [st for st in ast.walk(fn) if isinstance(st, ast.Assign) and st not in [b for _, b in body_assigns]
+              and any(isinstance(x, ast.Name) and x.id == short for x in st.targets)]
+    def initial_ok(st):
+        v = st.value
+        tnames = {x.id for x in st.targets if isinstance(x, ast.Name)}
+        return (isinstance(v, ast.Name) and v.id == num) or (num in tnames) or is_shortfall_expr(v)
+    bad_init = [unparse(st) for st in others if not initial_ok(st)]
+    ctx.check(good and not bad_init, f"{f.key}:unique:shortfall-recomputed-from-collected",
+              f"`{short}` is not kept equal to `{num} - len({coll})`: loop assignments "
+              f"{[unparse(st) for _, st in body_assigns]} (must follow the uniquing step), other assignments {bad_init}",
+              f"{short} = {num} - len({coll}) after each batch", f"{f.module.path}:{loop.lineno}")
+    # stops on an empty batch
+    rows_vars = {n for n, v, st in name_stores(fn) if v is not None and any(v is c for c in in_loop)}
+    stop = False
+    for st in loop.body:
+        if isinstance(st, ast.If) and any(isinstance(x, ast.Break) for x in st.body):
+            atoms = test_atoms(st.test, True)
+            if any(a in rows_vars and not pol for a, pol in atoms):
+                stop = True
+    ctx.check(stop, f"{f.key}:unique:stops-on-empty-batch",
+              "the top-up loop does not break when the fetch returns no rows (an exhausted result would loop forever or "
+              "report rows twice)", "if not rows: break", f"{f.module.path}:{loop.lineno}")
+    # unknown size
+    ok = True
+    for c in out_loop:
+        if c.args or c.keywords:
+            ok = ok and len(c.args) == 1 and isinstance(c.args[0], ast.Name) and c.args[0].id in (num, short)
+            continue
+        rv = [n for n, v, st in name_stores(fn) if v is c]
+        ok = ok and bool(rv) and any(isinstance(st, ast.Assign) and any(isinstance(x, ast.Name) and x.id == num for x in st.targets)
+                                     and unparse(st.value) == f"len({rv[0]})" for st in ast.walk(fn))
+    ctx.check(ok and bool(out_loop), f"{f.key}:unique:default-size-is-first-batch",
+              f"a size-less fetch outside the loop is not what defines `{num}` (`{num} = len(<batch>)`)",
+              f"{num} = len(first batch)", f.loc)
+
+
+# ---------------------------------------------------------------------------------------- R6
+# A generator method is suspended at every `yield` while other calls on the same result run.  A delegate object
+# that other code RE-ASSIGNS during the life of a result (`cursor_strategy`: yield_per(), soft close, _rewind)
+# must be read again after each resumption, as the non-generator fetch primitives do on every call.
+FAMILY_MODULES = (CY, "engine/cursor.py", RES, ARES)
+
+
+def _reassigned_attrs(ctx, ctor_only):
+    """{attribute name: 'where'} for attributes assigned on some object outside constructors in the result modules."""
+    out = {}
+    for rel in FAMILY_MODULES:
+        m = ctx.index.module(rel)
+        for fn in ctx.index.all_functions(m):
+            if fn.name in ctor_only or fn.type_only:
+                continue
+            for n in walk_local(fn.node):
+                if isinstance(n, ast.Assign):
+                    for t in n.targets:
+                        # an existing object: self or an object handed in (a local such as a fresh clone is not)
+                        if isinstance(t, ast.Attribute) and isinstance(t.value, ast.Name) and t.value.id in fn.params:
+                            out.setdefault(t.attr, []).append(fn.qualname)
+    return {k: ", ".join(sorted(set(v))[:4]) for k, v in out.items()}
+
+
+def _own_yields(fn):
+    return [n for n in walk_local(fn) if isinstance(n, (ast.Yield, ast.YieldFrom))]
+
+
+@R.rule("C10-R6", floor=9, template="T-FRESH",
+        desc="no generator of the Result family (row iterators, partitions, the iterrows closures) keeps, across a "
+             "`yield`, a local bound from an attribute of self that other methods re-assign (e.g. "
+             "self.cursor_strategy, swapped by yield_per()/soft close): the delegate is re-read inside the loop")
+def r6(ctx):
+    family = _result_family(ctx)
+    ctor_only = _constructor_only(family, None)
+    swappable = _reassigned_attrs(ctx, ctor_only)
+    ctx.require("cursor_strategy" in swappable, "cursor_strategy is no longer re-assigned: re-derive C10-R6")
+    gens = []
+    for c in family:
+        for f in c.methods.values():
+            if f.type_only:
+                continue
+            if _own_yields(f.node):
+                gens.append((f.key, f, f.node))
+            if _is_memoized(f):
+                for n in ast.walk(f.node):
+                    if isinstance(n, ast.FunctionDef) and n is not f.node and _own_yields(n):
+                        arm = "unique" if any("_unique_filter_state" in a and pol for a, pol in
+                                              guard_atoms(lexical_guards(f.module.parents(), n, stop=f.node))) else "plain"
+                        gens.append((f"{f.key}.{n.name}[{arm}]", f, n))
+    for key, f, node in gens:
+        ctx.functions_analysed.add(f.key)
+        loops = [n for n in walk_local(node) if isinstance(n, (ast.While, ast.For, ast.AsyncFor))
+                 and any(isinstance(x, (ast.Yield, ast.YieldFrom)) for x in ast.walk(n))]
+        stale = []
+        for name, v, st in name_stores(node):
+            if v is None:
+                continue
+            reads = [x.attr for x in ast.walk(v) if isinstance(x, ast.Attribute) and isinstance(x.value, ast.Name)
+                     and x.value.id == "self" and x.attr in swappable and not _is_getter_name(ctx, family, x.attr)]
+            if not reads:
+                continue
+            for lp in loops:
+                inside = any(s is st for s in ast.walk(lp))
+                used = any(isinstance(x, ast.Name) and x.id == name and isinstance(x.ctx, ast.Load) for x in ast.walk(lp))
+                if used and not inside:
+                    stale.append(f"`{unparse(st)}` is bound once but used after every `yield` of the loop at line "
+                                 f"{lp.lineno}, while self.{reads[0]} is re-assigned by {swappable[reads[0]]}")
+        ctx.check(not stale, f"{key}:no-stale-delegate-across-yield",
+                  "; ".join(stale) + ": an iterator created before that call keeps using the old object (rows out of "
+                                     "order / lost when mixed with fetchone()/fetchmany() on the same result)",
+                  "no swappable attribute of self is cached across a yield", f"{f.module.path}:{node.lineno}")
+
+
+def _is_getter_name(ctx, family, name):
+    return any(name in c.methods and _is_memoized(c.methods[name]) for c in family)
+
+
 # ---------------------------------------------------------------------- self-test battery
 R.mutant("result-first-raises-for-second", RES,
          sub("        return self._only_one_row(\n            raise_for_second_row=False, raise_for_none=False, scalar=False\n        )",
@@ -374,3 +734,60 @@ R.mutant("benign-rename-row-local", CY,
 R.mutant("benign-view-ctor-rename", RES,
          sub("    def __init__(self, result: Result[Unpack[TupleAny]]):\n        self._real_result = result\n        self._unique_filter_state = result._unique_filter_state\n        self._metadata = result._metadata\n        if result._source_supports_scalars:",
              "    def __init__(self, parent: Result[Unpack[TupleAny]]):\n        self._unique_filter_state = parent._unique_filter_state\n        self._real_result = parent\n        self._metadata = parent._metadata\n        result = parent\n        if result._source_supports_scalars:"), None)
+
+# ---- R4 (seed C10/1 and its class)
+R.mutant("r4-seed1-filterresult-yield-per-not-generative", RES,
+         sub("    @_generative\n    def yield_per(self, num: int) -> Self:\n        \"\"\"Configure the row-fetching strategy to fetch ``num`` rows at a time.\n\n        The :meth:`_engine.FilterResult.yield_per` method is a pass through",
+             "    def yield_per(self, num: int) -> Self:\n        \"\"\"Configure the row-fetching strategy to fetch ``num`` rows at a time.\n\n        The :meth:`_engine.FilterResult.yield_per` method is a pass through"), "C10-R4")
+_FR_YP = ("    @_generative\n    def yield_per(self, num: int) -> Self:\n        \"\"\"Configure the row-fetching strategy to fetch ``num`` rows at a time.\n\n"
+          "        The :meth:`_engine.FilterResult.yield_per` method is a pass through")
+R.mutant("r4-filterresult-yield-per-forwards-without-reset", RES,
+         chain(sub(_FR_YP, _FR_YP.replace("    @_generative\n", "", 1)),
+               sub("        self._real_result = self._real_result.yield_per(num)\n        return self\n",
+                   "        self._real_result.yield_per(num)\n        return self\n")), "C10-R4")
+R.mutant("r4-result-unique-not-generative", RES,
+         sub("    @_generative\n    def unique(self, strategy: Optional[_UniqueFilterType] = None) -> Self:\n        \"\"\"Apply unique filtering to the objects returned by this\n        :class:`_engine.Result`.",
+             "    def unique(self, strategy: Optional[_UniqueFilterType] = None) -> Self:\n        \"\"\"Apply unique filtering to the objects returned by this\n        :class:`_engine.Result`."), "C10-R4")
+R.mutant("r4-cursor-yield-per-not-generative", "engine/cursor.py",
+         sub("    @_generative\n    def yield_per(self, num: int) -> Self:\n        self._yield_per = num\n", "    def yield_per(self, num: int) -> Self:\n        self._yield_per = num\n"), "C10-R4")
+R.mutant("r4-rewind-keeps-memoized-getters", "engine/cursor.py",
+         sub("            initial_buffer=rows,\n        )\n        self._reset_memoizations()\n", "            initial_buffer=rows,\n        )\n"), "C10-R4")
+R.mutant("r4-column-slices-not-generative", RES,
+         sub("    @_generative\n    def _column_slices(self, indexes: Sequence[_KeyIndexType]) -> Self:", "    def _column_slices(self, indexes: Sequence[_KeyIndexType]) -> Self:"), "C10-R4")
+R.mutant("r4-new-setter-without-reset", RES,
+         sub("    def _soft_close(self, hard: bool = False) -> None:\n        self._real_result._soft_close(hard=hard)\n",
+             "    def _soft_close(self, hard: bool = False) -> None:\n        self._real_result._soft_close(hard=hard)\n\n"
+             "    def with_filter(self, fn: Any) -> Self:\n        self._post_creational_filter = fn\n        return self\n"), "C10-R4")
+R.mutant("benign-r4-reset-called-explicitly", "engine/cursor.py",
+         sub("    @_generative\n    def yield_per(self, num: int) -> Self:\n        self._yield_per = num\n",
+             "    def yield_per(self, num: int) -> Self:\n        self._reset_memoizations()\n        self._yield_per = num\n"), None)
+R.mutant("benign-r4-filter-unique-made-generative", RES,
+         sub("        See :meth:`_engine.Result.unique` for usage details.\n\n        \"\"\"\n        self._unique_filter_state = (set(), strategy)\n        return self\n",
+             "        See :meth:`_engine.Result.unique` for usage details.\n\n        \"\"\"\n        self._reset_memoizations()\n        self._unique_filter_state = (set(), strategy)\n        return self\n", count=2), None)
+# ---- R5 (seed C10/2 and its class)
+R.mutant("r5-seed2-top-up-fetches-full-size", CY,
+         sub("                    rows = _manyrows(num_required)\n", "                    rows = _manyrows(num)\n"), "C10-R5")
+R.mutant("r5-top-up-fetches-default-size", CY,
+         sub("                    rows = _manyrows(num_required)\n", "                    rows = _manyrows()\n"), "C10-R5")
+R.mutant("r5-shortfall-not-recomputed", CY,
+         sub("                    _apply_unique_strategy(\n                        made_rows, collect, uniques, strategy\n                    )\n                    num_required = num - len(collect)\n\n                if post_creational_filter",
+             "                    _apply_unique_strategy(\n                        made_rows, collect, uniques, strategy\n                    )\n                    num_required = num - len(rows)\n\n                if post_creational_filter"), "C10-R5")
+R.mutant("r5-plain-getter-ignores-size", CY,
+         sub("                rows: Sequence = self._fetchmany_impl(num)\n", "                rows: Sequence = self._fetchmany_impl(yield_per)\n"), "C10-R5")
+R.mutant("r5-no-stop-on-empty-batch", CY,
+         sub("                    rows = _manyrows(num_required)\n                    if not rows:\n                        break\n",
+             "                    rows = _manyrows(num_required)\n                    if rows is None:\n                        break\n"), "C10-R5")
+R.mutant("benign-r5-min-bound-and-rename", CY,
+         sub("                    rows = _manyrows(num_required)\n", "                    rows = _manyrows(min(num_required, num))\n"), None)
+# ---- R6
+R.mutant("r6-partitions-caches-strategy-bound-method", "engine/cursor.py",
+         sub("    def _fetchone_impl(self, hard_close: bool = False) -> Any:\n        return self.cursor_strategy.fetchone(self, self.cursor, hard_close)\n",
+             "    def _fetchone_impl(self, hard_close: bool = False) -> Any:\n        return self.cursor_strategy.fetchone(self, self.cursor, hard_close)\n\n"
+             "    def _chunks(self, size: int) -> Iterator[Any]:\n        fetchmany = self.cursor_strategy.fetchmany\n        while True:\n"
+             "            rows = fetchmany(self, self.cursor, size)\n            if not rows:\n                break\n            yield rows\n"), "C10-R6")
+R.mutant("r6-iterrows-caches-strategy", CY,
+         sub("            def iterrows() -> Iterator[_R]:\n                for raw_row in self._fetchiter_impl():\n                    row = (\n                        make_row(raw_row) if make_row is not None else raw_row\n                    )\n                    if post_creational_filter is not None:",
+             "            def iterrows() -> Iterator[_R]:\n                strategy_ = self.cursor_strategy\n                for raw_row in self._fetchiter_impl():\n                    strategy_.touch()\n                    row = (\n                        make_row(raw_row) if make_row is not None else raw_row\n                    )\n                    if post_creational_filter is not None:"), "C10-R6")
+R.mutant("benign-r6-strategy-read-inside-loop", "engine/cursor.py",
+         sub("        fetchone = self.cursor_strategy.fetchone\n\n        while True:\n            row = fetchone(self, self.cursor)\n",
+             "        while True:\n            fetchone = self.cursor_strategy.fetchone\n            row = fetchone(self, self.cursor)\n"), None)
